@@ -52,6 +52,11 @@ CORPUS = [
     # seeded C46-b: the finder is exhausted by a failed segment; a later request on the same node must fail too (not hang):
     # every new fetcher has to ask want_more_shares again
     ((2, 2, []), ["g:0:0", "l:0", "a:0.0.0.1", "l:0", "n", "l:0", "g:1:1", "l:1", "n", "l:1"]),
+    # seeded C46-d: duplicate requests for one segment whose fetch fails (fetch_failed), then a further request
+    ((2, 2, []), ["g:0:0", "g:0:1", "g:0:2", "l:0", "a:0.0.0.1", "l:0", "n", "l:0", "g:0:3", "l:1", "n", "l:1"]),
+    # the same with a decode failure (process_blocks failure branch) and with a bad segment number
+    ((1, 2, [0]), ["g:0:0", "g:0:1", "l:0", "a:0.0.0.1", "l:0", "s:0:0:C", "l:0", "g:1:2", "l:1", "s:1:0:C", "l:1"]),
+    ((1, 2, []), ["g:5:0", "g:5:1", "u", "l:0", "g:0:2", "a:0.0.0.1", "l:1", "s:1:0:C", "l:1"]),
     # cancel of the only request of the active segment, bad segment number
     ((2, 1, []), ["g:0:0", "l:0", "c:0", "g:3:1", "u", "l:1", "c:0", "g:0:2", "a:0.0.0.1,1.1.0.2", "l:2", "l:2"]),
 ]
@@ -61,6 +66,23 @@ def node_line(p, toks, mode="fixed"):
     return "node %s %d %d %s %s" % (mode, p[0], p[1], ",".join(map(str, p[2])) or "-", " ".join(toks))
 
 
+def lost_requests_check(ctx, case, toks, info):
+    """every request handed out by get_segment is still queued, was retired (callback / errback) or was cancelled"""
+    ids = [r.split("=")[0] for r in info["retired"]]
+    lost = [r for r in info.get("submitted", []) if r not in info["waiting"] and str(r) not in ids
+            and r not in info.get("cancelled", [])]
+    if lost:
+        segs = {}
+        for t in toks:
+            if t.startswith("g:"):
+                segs.setdefault(t.split(":")[1], []).append(int(t.split(":")[2]))
+        dup = any(len(v) > 1 and any(r in lost for r in v) for v in segs.values())
+        ctx.violation("segment request(s) %s left the queue but their Deferred never fired (unhandled: %s)"
+                      % (lost, info.get("unhandled")), case,
+                      "concurrent-reads-same-segment-hang-after-failure" if dup else "request-lost-without-callback",
+                      detail={"unhandled": info.get("unhandled")})
+
+
 def node_monitor(ctx, p, toks, info):
     case = {"kind": "node", "params": [p[0], p[1], list(p[2])], "toks": toks}
     ids = [r.split("=")[0] for r in info["retired"]]
@@ -68,6 +90,8 @@ def node_monitor(ctx, p, toks, info):
         ctx.violation("a segment request was retired twice", case, "request-retired-twice")
     act = info["active"]
     quiescent = info["queued"] == 0 and (act is None or not act[2] or (info["outstanding"] == 0 and info["nomore"]))
+    if quiescent:
+        lost_requests_check(ctx, case, toks, info)
     if quiescent and info["waiting"]:
         stale = act is not None and not act[2]
         sig = "stuck-after-decode-failure" if (stale and any(r.endswith("=decode-failed") for r in info["retired"])) \
@@ -85,9 +109,10 @@ def grid_monitor(ctx, sc, out):
     faults = bool(sc["share_faults"] or sc["server_plans"] or sc["copies"] or sc["crafted"] or badguess)
     failed_before = False
     decode_failed_before = False
+    concurrent_failed_before = False
     for group, outs in zip(sc["reads"], out["groups"]):
         if badguess:                  # every group runs on a fresh node
-            failed_before = decode_failed_before = False
+            failed_before = decode_failed_before = concurrent_failed_before = False
         beyond = badguess and any(fc.guess_relation(sc, off) == "beyond" for (off, sz) in group)
         for (off, sz), o in zip(group, outs):
             ctx.case(json.dumps([sc, off, sz]) if faults else None)
@@ -99,7 +124,9 @@ def grid_monitor(ctx, sc, out):
             if failed_before:
                 ctx.count("grid-read-after-failed-read:" + o)
             if o == "stuck":
-                sig = "stuck-after-decode-failure" if decode_failed_before else \
+                same_seg_failed = len(group) > 1 and any(x not in ("ok", "stuck") for x in outs)
+                sig = "concurrent-reads-same-segment-hang-after-failure" if (same_seg_failed or concurrent_failed_before) else \
+                    "stuck-after-decode-failure" if decode_failed_before else \
                     ("stuck-after-failed-read" if failed_before else
                      "stuck-after-bad-segment-number-retry" if beyond else "read-stuck")
                 ctx.violation("a read never completed although every server answered or failed (%s)" %
@@ -107,9 +134,11 @@ def grid_monitor(ctx, sc, out):
                                decode_failed_before else "after a failed read" if failed_before else
                                "first read(s) on a fresh node whose guessed segment number is >= the real number of "
                                "segments: the BadSegmentNumberError retry never re-requested" if beyond else "first failure"),
-                              case, sig)
+                              case, sig, detail={"unhandled": out.get("unhandled")})
             elif o == "wrong-data":
                 ctx.violation("read returned wrong bytes", case, "wrong-data")
+        if len(group) > 1 and any(o not in ("ok",) for o in outs):
+            concurrent_failed_before = True
         for o in outs:
             if o not in ("ok", "stuck"):
                 failed_before = True
@@ -157,6 +186,8 @@ def run(ctx):
             ncases.append(c)
             impl.append(";".join(digs))
             lines.append(node_line(p, c["toks"]))
+            if info["queued"] == 0:
+                lost_requests_check(ctx, c, c["toks"], info)
             if info["waiting"] and (info["active"] is None or not info["active"][2]):
                 ctx.violation("node with segment requests and no running fetcher (requests %s, _active_segment %s)"
                               % (info["waiting"], info["active"]), c,
@@ -173,6 +204,8 @@ def run(ctx):
             impl.append(";".join(digs))
             lines.append(node_line(p, toks))
             ctx.case(("N", repr(p), tuple(toks)))
+            if info["queued"] == 0:
+                lost_requests_check(ctx, ncases[-1], toks, info)
             if info["waiting"] and (info["active"] is None or not info["active"][2]):
                 ctx.violation("node with segment requests and no running fetcher (requests %s, _active_segment %s)"
                               % (info["waiting"], info["active"]), ncases[-1],
@@ -261,7 +294,14 @@ def run(ctx):
     if ncases:
         ctx.sample({"script": lines[0][:160], "impl": impl[0][:240]})
     for sc in scenarios:
-        out = fc.run_scenario(sc)
+        try:
+            out = fc.run_scenario(sc)
+        except Exception as e:                       # an exception escaping from one case must not end the run
+            import traceback
+            ctx.disagree("harness exception in one end-to-end scenario (recorded, run continues)", {"kind": "grid", "sc": sc},
+                         traceback.format_exc()[-600:], None)
+            ctx.count("scenario-exception:" + type(e).__name__)
+            continue
         grid_monitor(ctx, sc, out)
         ctx.sample({"scenario": sc, "outcome": out.get("groups")}, limit=8)
     for sc in late:
